@@ -269,6 +269,29 @@ fn main() {
                     }
                 }
             }
+            // ... and the converse (`MissingIsFirst`: a key no table lists has NO rate, so the run fails): for every code that
+            // occurs anywhere in the bundled tables and every bundled month, a rate is on offer only if that month's XML text
+            // (or a folder file for that month) lists that very code
+            {
+                let mut all_codes: std::collections::BTreeSet<String> = std::collections::BTreeSet::new();
+                for y in 2015..=2026 { for m in 1..=12u32 { if let Some(pairs) = bundled_month(&rates, y, m) { for (code, _) in pairs { all_codes.insert(code); } } } }
+                for y in 2015..=2026 {
+                    for m in 1..=12u32 {
+                        let Some(pairs) = bundled_month(&rates, y, m) else { continue };
+                        let here: std::collections::BTreeSet<&str> = pairs.iter().map(|(c, _)| c.as_str()).collect();
+                        for code in &all_codes {
+                            if here.contains(code.as_str()) || listed.contains_key(&(code.clone(), y, m)) { continue; }
+                            let Some(cur) = Currency::from_code(code) else { continue };
+                            cnt.inc("absent_keys_checked");
+                            if let Some(e) = c.get(cur, y, m) {
+                                findings.push(Finding { prop: "C08".into(), kind: "rate_invented".into(), case: ci,
+                                    detail: format!("folder config #{ci}: a rate ({}) is on offer for {code} in {y}-{m:02}, but neither the HMRC table of that month nor a folder file lists {code}: the run must fail instead", e.rate_per_gbp),
+                                    input: serde_json::to_string(files).unwrap_or_default(), data: json!({}) });
+                            }
+                        }
+                    }
+                }
+            }
             for (k, (_, r)) in &listed {
                 let Some(cur) = Currency::from_code(&k.0) else { continue };
                 if c.get(cur, k.1, k.2).map(|e| e.rate_per_gbp) != Some(*r) {
